@@ -470,11 +470,12 @@ Proof.
     - left. rewrite (T6 j Ea), (O6 j Ea), T1, T3, O1, O3. auto. }
   destruct (i >=? dev_count n1) eqn:Hrange.
   - intros H. injection H as <- <-. exists []. apply R_quiet.
-    rewrite <- (upd_q_same (set_claim_timer n1 i _)). cbn [set_claim_timer upd_dev n_q n_drv]. rewrite Hq, Hd.
-    apply (Hfinal n1), same_src_refl.
+    pose proof (Hfinal n1 (same_src_refl _ _)) as HF. rewrite <- Hq, <- Hd in HF.
+    set (X := set_claim_timer n1 i (sched_from_now (n_w64 n1) (n_now n1) c_N2kAddressClaimTimeout)) in *.
+    change (n_q n0) with (n_q X) in HF. change (n_drv n0) with (n_drv X) in HF. rewrite upd_q_same in HF. exact HF.
   - destruct (send_msg n1 (claim_msg (get_dev n1 i) 255) i) as [[n2 ev2] ok2] eqn:ES.
     intros H. injection H as <- <-.
-    destruct (send_msg_notp_shape _ _ _ _ _ _ eq_refl Hi ES) as (S2 & id & p & HF & Hfacts).
+    destruct (send_msg_notp_shape n1 (claim_msg (get_dev n1 i) 255) i n2 ev2 ok2 eq_refl Hi ES) as (S2 & id & p & HF & Hfacts).
     exists p. eapply Run_seq_nil_l; [apply (Hfinal n2 S2)|].
     set (n3 := set_claim_timer n2 i (sched_from_now (n_w64 n2) (n_now n2) c_N2kAddressClaimTimeout)).
     rewrite <- (upd_q_same n3) at 2. change (n_q n3) with (n_q n2). change (n_drv n3) with (n_drv n2).
